@@ -266,6 +266,8 @@ func derivesFrom(v, root ssa.Value, depth int) bool {
 		return derivesFrom(x.X, root, depth+1)
 	case *ssa.Extract:
 		return derivesFrom(x.Tuple, root, depth+1)
+	case *ssa.TypeAssert:
+		return derivesFrom(x.X, root, depth+1)
 	case *ssa.Alloc:
 		// spilled value receiver / local copy: what is stored into it
 		for _, ref := range *x.Referrers() {
